@@ -21,6 +21,20 @@ _sp16.loader.exec_module(c16opt)
 PROOFS = ([p for p in c09.PROOFS if p.name in _dec] + tokenizer_proofs.select(['tok_layout', 'parse_whitespace', 'parse_newline', 'parse_bs_newline', 'parse_off_newlines', 'parse_next_head'])
           + [p for p in c20.all_proofs() if p.name in ('newlines_eat_start_end', 'newlines_eat_start_end_single')]
           + [p for p in c16opt.all_proofs() if p.name in ('read_number_signed', 'read_number_unsigned', 'bool_read')])
+from prover import Proof  # noqa: E402
+_POOL = '(pc == P0 || pc == P1 || pc == P2 || pc == PN)'
+# WIP (contract + loop contracts written, solver does not finish in 10 min): termination of align_nl_cont; NOT part of the check
+WIP_PROOFS = []
+WIP_PROOFS.append(Proof('align_nl_cont', impl='contracts/C06/alignnl.impl.cpp', spec='contracts/C06/alignnl.spec.c', enforce='align_nl_cont/align_nl_cont_contract',
+                    replace=['c_get_next/get_next_contract', 'c_align_add/align_add_contract', 'c_pop_back/pop_back_contract'], canaries=2,
+                    loops=[dict(fn='align_nl_cont', id=0, vars=['pc', 'min_col', 'max_col', 'align_col'], assigns='pc, min_col, max_col, align_col, g_dist, g_stack_n',
+                                inv=_POOL + ' && g_stack_n < (1UL << 41)', decreases='g_dist + (pc == PN ? 0 : 1)'),
+                           dict(fn='align_nl_cont', id=1, vars=['tmp'], assigns='tmp, g_stack_n, Chunk_m_flags(P0), Chunk_m_flags(P1), Chunk_m_flags(P2), Chunk_m_column(P0), Chunk_m_column(P1), Chunk_m_column(P2)',
+                                inv='g_stack_n < (1UL << 41)', decreases='g_stack_n')],
+                    rules={'align_nl_cont': [('D8', [(r'numeric_limits<size_t>::max\(\)', '((size_t)-1)', 'std::numeric_limits<size_t>::max(): class templates with static members crash goto-cc')])]}, functions=['align/nl_cont.cpp:align_nl_cont'], expect=['align_nl_cont_contract.postcondition', 'loop_decreases'],
+                    assumed=['get_next_contract: the list is finite (ghost distance to its end) and the successor of the NullChunk sentinel is the sentinel', 'align_add / ChunkStack::Pop_Back: a finite stack'],
+                    mutants=[('null_test_dropped', r'while \(  pc->IsNotNullChunk\(\)\n         && pc->IsNot\(CT_NEWLINE\)', 'while (  pc->IsNot(CT_NEWLINE)', 'loop_decreases|postcondition')]))
+WIP_PROOFS[-1].macro_headers = ['../C06/alignnl_macros.h']
 EXPLANATION = ('Kernel of C06. CBMC\'s automatic obligations (container preconditions of the vector/deque models, pointer validity, signed overflow, shifts, division by zero) '
                'are the property\'s "never by a memory-safety/undefined-behaviour fault", and the decreases clauses of the loop contracts its "terminates", for every byte '
                'vector / code-point sequence of any length: all decoders of src/unicode.cpp and the white-space primitives of the tokenizer, with progress contracts '
